@@ -354,6 +354,9 @@ impl<'env> Executor<'env> {
                 }};
             }
 
+            #[cfg(feature = "verif_hooks")]
+            crate::__verif::on_instruction(instr);
+
             // if the fuel consumption feature is enabled, track the fuel
             // consumption here.
             #[cfg(feature = "fuel")]
